@@ -106,6 +106,10 @@ class Clause:
   canary: bool = False                # must FAIL (engine soundness guard)
   group: str = 'main'                 # clauses in the same group share a worker process
   heavy: bool = False                 # run in own subprocess (jax)
+  # Clauses whose theory is incomplete for the solver (ghost sums defined by recurrences: induction is never done by the solver, so a
+  # 'counter-model' may be a non-standard one).  For these a refutation counts as a violation only if the clause's native replay reproduces it
+  # on the real code; otherwise the clause is reported undecided (exit 2), never as an alarm.
+  refutation_needs_replay: bool = False
 
   @property
   def deductive(self):
